@@ -36,13 +36,13 @@ VARIABLES m,        \* [Idx -> value]               the signed values
           ndev
 vars == <<m, disc, hid, ecoef, vcoef, erc, sess, ndev>>
 
-NoHid == [on |-> FALSE, s |-> 0, rc |-> "in"]
-HonestHid(i) == [on |-> TRUE, s |-> Rep(m[i]), rc |-> "in"]
+NoHid == [on |-> FALSE, s |-> 0, rc |-> "in", tag |-> "none"]
+HonestHid(i) == [on |-> TRUE, s |-> Rep(m[i]), rc |-> "in", tag |-> "true"]
 
 Init == /\ m \in [Idx -> AttrVals] /\ m[0] \in SecretVals
         /\ \E D \in SUBSET (1..NAttr) :
               /\ disc = [i \in Idx |-> IF i \in D THEN m[i] ELSE -1]
-              /\ hid = [i \in Idx |-> IF i \in D THEN NoHid ELSE [on |-> TRUE, s |-> Rep(m[i]), rc |-> "in"]]
+              /\ hid = [i \in Idx |-> IF i \in D THEN NoHid ELSE [on |-> TRUE, s |-> Rep(m[i]), rc |-> "in", tag |-> "true"]]
         /\ ecoef = "true" /\ vcoef = "true" /\ erc = "in" /\ sess = "same" /\ ndev = 0
 
 Dev == ndev < MaxDev /\ ndev' = ndev + 1 /\ UNCHANGED m
@@ -56,7 +56,7 @@ AlterDisclosed == \E i \in Idx : \E a \in Claims(i) :
 Overlap == \E i \in Idx : \E a \in Claims(i) :
    /\ Dev
    /\ disc' = [disc EXCEPT ![i] = a]
-   /\ hid' = [hid EXCEPT ![i] = [on |-> TRUE, s |-> Rep(m[i]) - Rep(a), rc |-> "in"]]
+   /\ hid' = [hid EXCEPT ![i] = [on |-> TRUE, s |-> Rep(m[i]) - Rep(a), rc |-> "in", tag |-> "comp"]]
    /\ UNCHANGED <<ecoef, vcoef, erc, sess>>
 \* disclose a hidden attribute honestly / hide a disclosed one honestly (includes the secret key)
 Toggle == \E i \in Idx :
@@ -66,8 +66,8 @@ Toggle == \E i \in Idx :
    /\ UNCHANGED <<ecoef, vcoef, erc, sess>>
 \* shift a hidden coefficient by the group order / by one
 SetCoeff == \E i \in Idx, d \in {ORD, 1} :
-   /\ hid[i].on /\ hid[i].s = Rep(m[i]) /\ Dev
-   /\ hid' = [hid EXCEPT ![i].s = @ + d] /\ UNCHANGED <<disc, ecoef, vcoef, erc, sess>>
+   /\ hid[i].on /\ hid[i].tag = "true" /\ Dev
+   /\ hid' = [hid EXCEPT ![i].s = @ + d, ![i].tag = IF d = ORD THEN "shift" ELSE "off"] /\ UNCHANGED <<disc, ecoef, vcoef, erc, sess>>
 \* put a response exactly at / one past / below its bound (possible exactly when the coefficient is 0)
 Boundary == \E i \in Idx, rc \in {"max", "over", "neg"} :
    /\ hid[i].on /\ hid[i].s = 0 /\ hid[i].rc = "in" /\ Dev
